@@ -111,7 +111,7 @@ def check_c11(c, af, a, mf):
         return {"why": "an ill-formed layout is accepted (code is generated)", "finding": None}
     if oc == "error" and af.get("kind") in LAYOUT_KINDS and af.get("stage") != "front":
         names = af.get("names") or []
-        o = objs[0]
+        o = [x for x in objs if x["kind"] in ("register", "command")][0]
         if not names or not loose(names[0]).startswith(loose(o["name"])):
             return {"why": "the layout rejection does not name the object", "finding": None}
     return None
@@ -120,11 +120,11 @@ def check_c11(c, af, a, mf):
 def nontrivial_c11(c):
     if c.get("profile") != "layout":
         return False
-    o = c["adef"]["objects"][0]
-    return sum(len(fs) for _, _, fs in field_sets_of(o)) >= 2
+    return sum(len(fs) for o in all_objects(c["adef"]["objects"]) if o["kind"] in ("register", "command")
+               for _, _, fs in field_sets_of(o)) >= 2
 
 
-RULES["C11"] = ("single-object definitions whose field ranges are drawn around each other's endpoints and the size "
+RULES["C11"] = ("single-object definitions (at the top level or one / two blocks deep) whose field ranges are drawn around each other's endpoints and the size "
                 "(touching, nested, crossing, empty, reversed, one past), all base types, overlap flag, byte order at object / "
                 "global / neither level, in the four syntaxes, plus small whole devices; non-trivial = at least two fields; "
                 "distinct = distinct (syntax, definition)")
@@ -182,7 +182,7 @@ def enum_ok(width, variants, use_try):
 
 
 def the_enum_field(c):
-    r = c["adef"]["objects"][0]
+    r = [o for o in all_objects(c["adef"]["objects"]) if o["kind"] == "register"][0]
     f = r["fields"][0]
     return r, f, f["conversion"]["enum"], f["conversion"]["try"], f["end"] - f["start"]
 
@@ -360,8 +360,8 @@ def check_c08(c, af, a, mf):
     if not str(c.get("profile", "")).startswith("reset"):
         return None
     adef = c["adef"]
-    regs = {o["name"]: o for o in adef["objects"] if o["kind"] == "register"}
-    refs = [o for o in adef["objects"] if o["kind"] == "ref"]
+    regs = {o["name"]: o for o in all_objects(adef["objects"]) if o["kind"] == "register"}
+    refs = [o for o in all_objects(adef["objects"]) if o["kind"] == "ref"]
     oc = af.get("outcome")
     if oc in ("panic", "abort", "timeout"):
         return {"why": f"reset value makes the generator {oc}", "finding": None}
@@ -431,7 +431,7 @@ RULES["C08"] = ("register sizes x {LE,BE} x {LSB0,MSB0} x integer / array / abse
                 "non-trivial = the case declares a reset value; distinct = distinct (syntax, definition)")
 CHECKS["C08"] = check_c08
 NONTRIVIAL["C08"] = lambda c: str(c.get("profile", "")).startswith("reset") and any(
-    ("reset" in o) or ("reset" in o.get("override", {})) for o in c["adef"]["objects"])
+    ("reset" in o) or ("reset" in o.get("override", {})) for o in all_objects(c["adef"]["objects"]))
 
 
 # ------------------------------------------------------------------------------------ C18 (cfg)
@@ -1347,6 +1347,16 @@ def check_c02(c, af, a, mf):
     return None
 
 
+RULES["C01"] = ("generator half: field sets of every size 1..128 and both byte / bit orders at object / global / default level: "
+                "the emitted getter and setter name the codec family and byte order of the effective orders and the declared range")
+CHECKS["C01"] = check_c02
+NONTRIVIAL["C01"] = lambda c: True
+
+RULES["C10"] = ("generator half: devices with buffers at the top level and in (repeated) blocks, negative addresses included: the "
+                "address the buffer accessor computes is the mathematically defined one (the oracle of C04)")
+CHECKS["C10"] = lambda c, af, a, mf: (lambda v: None if (v and v.get("finding")) else v)(check_c04(c, af, a, mf))
+NONTRIVIAL["C10"] = lambda c: '"buffer"' in json.dumps(c["adef"])
+
 RULES["C02"] = ("generator half: field sets of generated devices in all four syntaxes; the emitted getter and setter of every "
                 "field must use the same codec family, byte order, range and carrier, equal to the declared layout")
 CHECKS["C02"] = check_c02
@@ -1356,6 +1366,10 @@ NONTRIVIAL["C02"] = lambda c: True
 def check_c09(c, af, a, mf):
     """Generator half of C09: a command accessor is typed with the unit type exactly on the sides that declare no
     fields (then the runtime sends size 0 and an empty slice), and with a field set of the declared size otherwise."""
+    if c.get("profile") == "addrtype":
+        # the command's address as the interface gets it (the oracle of C04; recorded findings of C04 / C13 are theirs)
+        v = check_c04(c, af, a, mf)
+        return None if (v and v.get("finding")) else v
     if c.get("profile") != "cmdshape" or af.get("outcome") != "ok":
         return None
     nm = c.get("names") or {}
@@ -1390,6 +1404,19 @@ def check_c09(c, af, a, mf):
             if has_fields and got in fss and fss[got]["size_bits"] != tgt["size_bits_" + side]:
                 return {"why": f"command {o['name']}: {side}put field set has {fss[got]['size_bits']} bits, declared {tgt['size_bits_' + side]}", "finding": None}
     return None
+
+
+def check_c05(c, af, a, mf):
+    """Generator half of C05: `write` starts from the register's reset value — the accessor of a register passes
+    `new`, the accessor of a ref that overrides the reset value passes its own `new_as_<ref>` constructor, and those
+    constructors hold the declared bytes (the checks of C08 on the same definitions)."""
+    return check_c08(c, af, a, mf)
+
+
+RULES["C05"] = ("generator half: devices with reset values on registers and ref overrides (incl. overrides equal to the "
+                "target's own value): the accessor hands RegisterOperation the constructor holding the declared bytes")
+CHECKS["C05"] = check_c05
+NONTRIVIAL["C05"] = lambda c: True
 
 
 RULES["C09"] = ("generator half: commands in every shape (no side, size without fields, size with fields, zero size, basic form) and "
